@@ -200,6 +200,19 @@ def check_case(case):
         out.classes = sorted(set(out.classes))
     out.nontrivial = bool(feats & {'204', 'bitmap', 'delayed_rep', 'fixed_rep', '221_skipped'})
     check_message(out, case.bytes, case.values())
+    if not out.failures:
+        # "... or an attribute of its owner": the hierarchical view against the one expected from the reference model
+        # (which value hangs on which node), subset by subset
+        from checks import c07
+        o = sut.call(decoder().process, case.bytes)
+        if o.ok:
+            got_nested = c07.rnested.strip_description(sut.nested_template_data(o.value))
+            for i in range(min(case.nsub, len(got_nested))):
+                d = c07.nested_diff(got_nested[i], c07.expected_nested(case, i))
+                if d is not None:
+                    out.fail('hierarchical view: a value is not a member / factor / attribute of the node it belongs to', subset=i,
+                             path=d[0], got=d[1], expected=d[2])
+                    break
     return out
 
 
@@ -317,6 +330,7 @@ def run(tier, seed):
     res = runner.run_enumerated(items, check_corpus, workers, chunk=2)
     std.add_results(rep, res, 'corpus')
     std.run_boundary(rep, tier, check_case)
+    std.run_named(rep, gmsg.same_shape_other_bitmap_cases(), check_case, 'same descriptors, other bitmap', 'same_descriptors_other_bitmap')
     # subsets with about 100 000 values: the flat text numbers its lines in a five-character column
     res = runner.run_enumerated([100001] if tier == 'quick' else [99999, 100000, 100001, 100002, 131073], check_large, workers, chunk=1)
     for case, out, excl in res:
